@@ -65,6 +65,8 @@ EXT_METHOD_SIGS = {
     "minimize": ["method", "params"],  # lmfit.Minimizer.minimize
 }
 
+_TABLE_METHODS = {"copy", "get", "keys", "items", "values", "update", "pop", "to_records", "to_numpy", "astype", "sum", "min", "max", "mean", "intersection", "rename", "drop", "reset_index", "sort_values"}
+
 IDENTITY_EXT = {
     "numpy.array", "numpy.asarray", "numpy.asanyarray", "numpy.ascontiguousarray", "float", "numpy.float64",
     "copy.copy", "copy.deepcopy", "list", "tuple", "numpy.atleast_1d", "numpy.squeeze",
@@ -995,8 +997,10 @@ class Interp:
             return self.attr_heap[hk]
         a = self.single_atom(bn)
         nm = a[1] if a is not None and a[0] == "sym" else None
-        if nm is not None and nm in self.attr_as_key:
+        if nm is not None and nm in self.attr_as_key and attr not in _TABLE_METHODS:
             return self._index(base, StrV(attr), node)
+        if attr in _TABLE_METHODS and nm is not None:
+            return BoundExt(base, attr)
         if nm is not None:
             return sym_num(f"{nm}.{attr}")
         return Num(nf.fn("." + attr, bn))
